@@ -151,6 +151,153 @@ class DrvEmit(C.Emit):
         raise Unsupported("loop shape")
 
 
+ITER_FNS = [
+    ("rolling_apply", "Option Nat × Nat", False),
+    ("rolling2_apply", "Option (Nat × Nat) × (Nat × Nat)", True),
+    ("rolling_apply_idx", "Option Nat × Nat × Nat", False),
+    ("rolling2_apply_idx", "Option Nat × Nat × (Nat × Nat)", True),
+    ("rolling_custom_iter", "(Nat × Nat)", False),
+]
+
+
+def is_list(t):
+    return isinstance(t, tuple) and t[0] == "list"
+
+
+class IterEmit(DrvEmit):
+    """the default (iterator) bodies: an iterator is the list of the items it yields; an element of
+    `self.titer()` is represented by its index"""
+
+    def ex0(self, e, env, expect=None):
+        k = e[0]
+        if k == "paren":
+            t, ty = self.ex0(e[1], env, expect)
+            return t, ty
+        if k == "bin" and e[1] == "..":
+            a, ta = self.ex0(e[2], env)
+            b, tb = self.ex0(e[3], env)
+            if ta == tb == "Nat":
+                return f"(List.range' {a} ({b} - {a}))", ("list", "Nat")
+        if k == "call":
+            name, args = e[1], e[2]
+            if name in ("std::iter::repeat_n", "repeat_n") and len(args) == 2:
+                n, tn = self.ex0(args[1], env)
+                if tn != "Nat":
+                    raise Unsupported("repeat_n count")
+                if args[0] == ("path", "None"):
+                    return f"(List.replicate {n} none)", ("list", ("opt", "?"))
+                v, tv = self.ex0(args[0], env)
+                return f"(List.replicate {n} {v})", ("list", tv)
+            if name == "f":
+                parts = []
+                for a in args:
+                    at, aty = self.ex0(a, env)
+                    parts.append(at)
+                return "(" + ", ".join(parts) + ")", "Event"
+        if k == "mcall":
+            recv, name, args = e[1], e[2], e[3]
+            if recv[0] == "path" and recv[1] in ("self", "other") and name == "titer" and not args:
+                return ("(List.range len)" if recv[1] == "self" else "(List.range len2)"), ("list", "Rd")
+            if recv == ("path", "self") and name == "slice" and len(args) == 2:
+                a, ta = self.ex0(args[0], env)
+                b, tb = self.ex0(args[1], env)
+                if ta != "Nat" or tb != "Nat":
+                    raise Unsupported("slice bounds")
+                return f"({a}, {b})", "Slice"
+            if recv[0] == "path" and recv[1] in ("self", "other"):
+                return super().ex0(e, env, expect)
+            r, tr = self.ex0(recv, env)
+            if is_list(tr):
+                if name in ("to_trust",) and len(args) == 1:
+                    return r, tr
+                if name in ("collect_trusted_vec1",) and not args:
+                    return r, tr
+                if name == "chain" and len(args) == 1:
+                    a, ta = self.ex0(args[0], env)
+                    if not is_list(ta):
+                        raise Unsupported("chain argument")
+                    el = ta[1] if (isinstance(tr[1], tuple) and tr[1] == ("opt", "?")) else tr[1]
+                    return f"({r} ++ {a})", ("list", el)
+                if name == "zip" and len(args) == 1:
+                    a, ta = self.ex0(args[0], env)
+                    if not is_list(ta):
+                        raise Unsupported("zip argument")
+                    return f"({r}.zip {a})", ("list", ("tuple", (tr[1], ta[1])))
+                if name == "enumerate" and not args:
+                    return f"(({r}.zipIdx).map fun p => (p.2, p.1))", ("list", ("tuple", ("Nat", tr[1])))
+                if name == "map" and len(args) == 1:
+                    if args[0] == ("path", "Some"):
+                        return f"({r}.map some)", ("list", ("opt", tr[1]))
+                    cl = args[0]
+                    if cl[0] != "closure" or len(cl[1]) != 1:
+                        raise Unsupported("map argument")
+                    env2 = dict(env)
+                    ptxt = self.bind_pat(cl[1][0], tr[1], env2)
+                    if cl[2][1]:
+                        raise Unsupported("map closure with statements")
+                    b, tb = self.ex0(cl[2][2], env2)
+                    return f"({r}.map fun {ptxt} => {b})", ("list", tb)
+        return super().ex0(e, env, expect)
+
+    def bind_pat(self, p, ty, env):
+        if p[0] == "ptuple" and isinstance(ty, tuple) and ty[0] == "tuple" and len(ty[1]) == len(p[1]):
+            return "(" + ", ".join(self.bind_pat(q, t, env) for q, t in zip(p[1], ty[1])) + ")"
+        if p[0] == "pvar":
+            env[p[1]] = ty
+            return C.lname(p[1])
+        raise Unsupported("pattern")
+
+
+def translate_iter(name, evty, two):
+    src = open(os.path.join(repo, REL), encoding="utf-8", errors="replace").read()
+    src = re.sub(r"//[^\n]*", "", src)
+    body_src = parse_macros(fn_src(src, name))
+    blk = C.P(C.tokenize(body_src)).block()
+    em = IterEmit()
+    env = {"window": "Nat"}
+    lines = []
+    # `if let Some(out) = out { self.<fn>_to(..); None } else { <iterator body> }`, or the iterator body itself
+    body = blk
+    if blk[2] is not None and blk[2][0] == "iflet" and blk[2][2] == ("path", "out") and not blk[1]:
+        th = blk[2][3]
+        ok = (len(th[1]) == 1 and th[1][0][0] == "expr" and th[1][0][1][0] == "mcall"
+              and th[1][0][1][1] == ("path", "self") and th[1][0][1][2] == name + "_to" and th[2] == ("path", "None"))
+        if not ok or blk[2][4] is None:
+            raise Unsupported("out-buffer branch shape")
+        body = blk[2][4]
+    asserted = False
+    for st in body[1]:
+        if st[0] == "expr" and st[1][0] == "call" and st[1][1] == "assert__":
+            c, tc = em.ex0(st[1][2][0], env)
+            if tc != "Bool":
+                raise Unsupported("assert condition")
+            lines.append(f"if !({c}) then none else")
+            asserted = True
+            continue
+        if st[0] == "let" and st[3] is not None and st[1][0] == "pvar":
+            t, ty = em.ex0(st[3], env)
+            env[st[1][1]] = ty
+            lines.append(f"let {C.lname(st[1][1])} := {t}")
+            continue
+        raise Unsupported("statement in an iterator body")
+    tail = body[2]
+    if tail is None:
+        raise Unsupported("iterator body without a result")
+    if tail[0] == "call" and tail[1] == "Some" and len(tail[2]) == 1:
+        tail = tail[2][0]
+    t, ty = em.ex0(tail, env)
+    if not (is_list(ty) and ty[1] == "Event"):
+        raise Unsupported(f"result type {ty}")
+    lines.append(f"some {t}")
+    L = [f"namespace {name}"]
+    L.append(f"/-- `Vec1View::{name}` ({REL}), returned path: the arguments of the callback, in order; `none` = an `assert!` fails -/")
+    L.append(f"def run (len{' len2' if two else ''} window : Nat) : Option (List ({evty})) :=")
+    L.append(C.indent("\n".join(lines), 2))
+    L.append("def parsed : Bool := true")
+    L.append(f"end {name}")
+    return "\n".join(L)
+
+
 def parse_macros(src):
     """`assert!(c, "msg")` -> `assert__(c)`  (string literals are not in the tokenizer's alphabet)"""
     src = re.sub(r'"(?:[^"\\]|\\.)*"', "0", src)
@@ -266,6 +413,22 @@ def main():
         names.append(name)
         out.append(txt)
         out.append("")
+    inames = []
+    for name, evty, two in ITER_FNS:
+        try:
+            txt = translate_iter(name, evty, two)
+        except Unsupported as ex:
+            reason = str(ex).replace('"', "'")
+            txt = (f"namespace {name}\n/- UNPARSED: {reason} -/\ndef parsed : Bool := false\n"
+                   f"def reason : String := \"{reason}\"\nend {name}")
+        except Exception as ex:
+            reason = (type(ex).__name__ + ": " + str(ex)).replace('"', "'")
+            txt = (f"namespace {name}\n/- UNPARSED: {reason} -/\ndef parsed : Bool := false\n"
+                   f"def reason : String := \"{reason}\"\nend {name}")
+        inames.append(name)
+        out.append(txt)
+        out.append("")
+    out.append("def iterFunctions : List String := [" + ", ".join(f'"{n}"' for n in inames) + "]")
     out.append("def functions : List String := [" + ", ".join(f'"{n}"' for n in names) + "]")
     out.append("\nend Tv.GenDrv")
     new = "\n".join(out) + "\n"
